@@ -8,6 +8,8 @@ of the generation rules.  The theorems below relate the two for every document o
 import MorphKgc.Model.Normalize
 import MorphKgc.Lemmas.Str
 import MorphKgc.Lemmas.Escape
+import MorphKgc.Lemmas.Template
+import MorphKgc.Lemmas.EvalRule
 import MorphKgc.Gen.Escape
 
 namespace Props.C01
@@ -41,5 +43,302 @@ theorem C01_F4_all_constant_rule_ignores_rows :
     evalRule {} [] { subjectMapType := .constant, subjectMapValue := ['s'], predicateMapValue := ['p'], objectMapValue := ['o'],
                      graphMapValue := "http://w3id.org/rml/defaultGraph".toList } = .ok ["<s> <p> <o>".toList] := by
   decide +kernel
+
+/-! ### the refinement theorems (core fragment; hypotheses = the complements of the findings' scopes) -/
+
+/-- **Term maps (G1).** On an escape-free template (`WFTpl`: no backslash, brace or U+200B in literal text and
+    column names — the complement of the scope of C01_F1) the split/join loop computes the substitution. -/
+theorem C01_template_subst (cfg : TermCfg) (t : Spec.Tpl) (h : WFTpl t = true) (tt : Option TermType) (dt : Str)
+    (row : Str → Option Str) (vals : List Str) (hv : t.parts.map (fun p => row p.1) = vals.map some) :
+    materializeTemplate cfg .template t.render tt dt [] row
+      = .ok (wrapTerm tt (t.pre ++ (t.parts.zip vals).flatMap fun pv => transformValue cfg true tt dt pv.2 ++ pv.1.2)) :=
+  materializeTemplate_eq_subst cfg t h tt dt row vals hv
+
+/-- non-vacuity -/
+example : WFTpl ⟨"http://ex/".toList, [("id".toList, "/".toList), ("n".toList, [])]⟩ = true := by decide +kernel
+
+/-- the escape chain translated from the source is the specification's ECHAR escaping, for every string -/
+theorem C01_escape_chain (v : Str) : applyChain Gen.escapeChainTemplate v = escapeLit v := escapeChain_eq_escapeLit v
+
+/-- **One rule (G3).** For every rule built from a subject map, predicate map, term-valued object map and graph map of
+    the fragment (`RuleOK`), every table that has the referenced columns (`Complete`) and no raw null objects
+    (`NoRawNulls`, complement of C06_F1), the engine does not raise and emits exactly the statements that the generation
+    rules prescribe for that combination: none missing, no other.  `hF4` is the complement of the scope of C01_F4. -/
+theorem C01_rule_refinement {env : Env} {senv : SEnv} (henv : EnvOK env senv) (doc : Doc) (rules : List Rule)
+    (tm : TriplesMap) (pm om gm : TermMap) (hr : RuleOK senv.defaultGraph tm pm om gm)
+    (hcomp : Complete (refsOfRule (ruleOf tm pm om (mapOf gm))) (senv.table tm) = true)
+    (hnn : NoRawNulls (senv.table tm) = true)
+    (hF4 : isAllConstant (ruleOf tm pm om (mapOf gm)) = true → senv.table tm ≠ []) :
+    ∃ lines, evalRule env rules (ruleOf tm pm om (mapOf gm)) = .ok lines ∧
+      ∀ line, line ∈ lines ↔ ∃ ρ ∈ senv.table tm, line ∈ stmtsFor senv doc tm ρ [gm] pm (.term om) :=
+  rule_refinement henv doc rules tm pm om gm hr hcomp hnn hF4
+
+/-! #### documents -/
+
+/-- syntax of the fragment: every term map is escape-free (`SubjOK`/`PredOK`/`ObjOK`/`GraphOK`), no referencing object map -/
+def FragmentOK (senv : SEnv) (doc : Doc) : Bool :=
+  doc.tms.all fun tm =>
+    SubjOK tm.subject && tm.classes.all PlainStr && tm.graphs.all (GraphOK senv.defaultGraph) &&
+    tm.poms.all fun pom =>
+      pom.predicates.all PredOK &&
+      pom.objects.all (fun o => match o with | .term om => ObjOK om | .ref _ _ => false) &&
+      pom.graphs.all (GraphOK senv.defaultGraph)
+
+/-- reader guarantees: every table has the columns its rules reference and delivers no raw null objects -/
+def TablesOK (senv : SEnv) (doc : Doc) : Bool :=
+  doc.tms.all fun tm =>
+    NoRawNulls (senv.table tm) && (rulesOfTm doc tm).all fun r => Complete (refsOfRule r) (senv.table tm)
+
+/-- complement of the scope of C01_F4: no all-constant rule over an empty logical source -/
+def NoF4 (senv : SEnv) (doc : Doc) : Bool :=
+  doc.tms.all fun tm => (rulesOfTm doc tm).all fun r => !isAllConstant r || !(senv.table tm).isEmpty
+
+theorem FragmentOK_noRef {senv : SEnv} {doc : Doc} (h : FragmentOK senv doc = true) : NoRefObj doc = true := by
+  simp only [FragmentOK, List.all_eq_true, Bool.and_eq_true] at h
+  simp only [NoRefObj, List.all_eq_true]
+  intro tm htm pom hpom o ho
+  have := (h tm htm).2 pom hpom |>.1.2 o ho
+  cases o <;> simp_all
+
+theorem plain_names : PlainStr rdfTypeIri = true ∧ PlainStr defaultGraphIri = true := by decide +kernel
+
+theorem FragmentOK_ruleOK {senv : SEnv} {doc : Doc} (hn : NamesOK senv) (h : FragmentOK senv doc = true)
+    {tm : TriplesMap} (htm : tm ∈ doc.tms) {pm om gm : TermMap} (hc : Combo senv tm pm om gm) :
+    RuleOK senv.defaultGraph tm pm om gm := by
+  simp only [FragmentOK, List.all_eq_true, Bool.and_eq_true] at h
+  obtain ⟨⟨⟨hs, hcl⟩, hgs⟩, hpoms⟩ := h tm htm
+  have hdef : GraphOK senv.defaultGraph (defaultGm senv) = true := by
+    simp [GraphOK, defaultGm, WFTermMap, hn.dg, plain_names.2]
+  have heff : ∀ gs : List TermMap, (∀ g ∈ gs, GraphOK senv.defaultGraph g = true) →
+      ∀ g ∈ effGraphs senv gs, GraphOK senv.defaultGraph g = true := by
+    intro gs hgs g hg
+    unfold effGraphs at hg
+    split at hg
+    · simp only [List.mem_singleton] at hg; subst hg; exact hdef
+    · exact hgs g hg
+  rcases hc with ⟨c, hc, rfl, rfl, hgm⟩ | ⟨pom, hpom, hp, ho, hgm⟩
+  · refine ⟨hs, ?_, ?_, heff _ hgs gm hgm⟩
+    · simp [PredOK, classPred, WFTermMap, hn.ty, plain_names.1]
+    · simp [ObjOK, classObjTm, WFTermMap, hcl c hc]
+  · obtain ⟨⟨hps, hos⟩, hpg⟩ := hpoms pom hpom
+    refine ⟨hs, hps pm hp, ?_, heff _ ?_ gm hgm⟩
+    · simpa using hos _ ho
+    · intro g hg
+      rcases List.mem_append.mp hg with hg | hg
+      · exact hgs g hg
+      · exact hpg g hg
+
+theorem objectMapType_rulesOfTm {doc : Doc} (hnr : NoRefObj doc = true) {tm : TriplesMap} (htm : tm ∈ doc.tms)
+    {r : Rule} (hr : r ∈ rulesOfTm doc tm) : r.objectMapType ≠ .parentTM := by
+  rw [rulesOfTm_eq] at hr
+  split at hr
+  · simp only [List.mem_singleton] at hr
+    subst hr
+    simp [baseRule_eq]
+  · simp only [List.mem_append, List.mem_flatMap, List.mem_map] at hr
+    rcases hr with ⟨c, _, g, _, rfl⟩ | ⟨pom, hpom, p, _, o, ho, g, _, rfl⟩
+    · exact mapOf_ne_parentTM _
+    · obtain ⟨om, rfl⟩ := NoRefObj_term hnr htm hpom ho
+      exact mapOf_ne_parentTM _
+
+/-- without referencing object maps, self-join elimination is the identity -/
+theorem mem_normalizeDoc {doc : Doc} (hnr : NoRefObj doc = true) (r : Rule) :
+    r ∈ normalizeDoc doc ↔ ∃ tm ∈ doc.tms, r ∈ rulesOfTm doc tm := by
+  unfold normalizeDoc
+  simp only
+  have hid : ∀ r ∈ dedupFirst (doc.tms.flatMap (rulesOfTm doc)),
+      eliminateSelfJoin (dedupFirst (doc.tms.flatMap (rulesOfTm doc))) r = r := by
+    intro r hr
+    rw [mem_dedupFirst, List.mem_flatMap] at hr
+    obtain ⟨tm, htm, hr⟩ := hr
+    have := objectMapType_rulesOfTm hnr htm hr
+    simp [eliminateSelfJoin, this]
+  rw [List.map_congr_left hid, List.map_id', mem_dedupFirst, List.mem_flatMap]
+
+/-- `materialize_set`: the union over the asserted rules -/
+theorem evalAll_spec (env : Env) (rules : List Rule)
+    (h : ∀ r ∈ rules, r.asserted = true → ∃ lines, evalRule env rules r = .ok lines) :
+    ∃ out, evalAll env rules = .ok out ∧
+      ∀ line, line ∈ out ↔ ∃ r ∈ rules, r.asserted = true ∧ ∃ lines, evalRule env rules r = .ok lines ∧ line ∈ lines := by
+  obtain ⟨parts, hparts⟩ := mapM_ok_of_forall_exists (evalRule env rules) (rules.filter (·.asserted))
+    (fun r hr => by
+      simp only [List.mem_filter] at hr
+      exact h r hr.1 hr.2)
+  refine ⟨dedupFirst parts.flatten, ?_, fun line => ?_⟩
+  · unfold evalAll
+    rw [hparts]
+    rfl
+  · rw [mem_dedupFirst, List.mem_flatten]
+    constructor
+    · rintro ⟨l, hl, hline⟩
+      obtain ⟨r, hr, hrl⟩ := (mem_of_mapM_ok _ _ _ hparts l).mp hl
+      simp only [List.mem_filter] at hr
+      exact ⟨r, hr.1, hr.2, l, hrl, hline⟩
+    · rintro ⟨r, hr, ha, l, hrl, hline⟩
+      exact ⟨l, (mem_of_mapM_ok _ _ _ hparts l).mpr ⟨r, by simp [List.mem_filter, hr, ha], hrl⟩, hline⟩
+
+/-- **C01 (partial).** For every document of the core fragment and all tables satisfying the reader guarantees, the engine
+    (rule normalisation + materializer) does not raise and its output has exactly the statements of the generation rules. -/
+theorem C01_refinement_partial {env : Env} {senv : SEnv} (henv : EnvOK env senv) (hn : NamesOK senv) (doc : Doc)
+    (hfrag : FragmentOK senv doc = true) (htab : TablesOK senv doc = true) (hF4 : NoF4 senv doc = true) :
+    ∃ out, evalAll env (normalizeDoc doc) = .ok out ∧ ∀ line, line ∈ out ↔ line ∈ evalDoc senv doc := by
+  have hnr := FragmentOK_noRef hfrag
+  simp only [TablesOK, List.all_eq_true, Bool.and_eq_true] at htab
+  simp only [NoF4, List.all_eq_true, Bool.or_eq_true, Bool.not_eq_true', List.isEmpty_eq_false_iff] at hF4
+  -- every combination's rule is refined
+  have hrule : ∀ tm ∈ doc.tms, ∀ pm om gm, Combo senv tm pm om gm →
+      ∃ lines, evalRule env (normalizeDoc doc) (ruleOf tm pm om (mapOf gm)) = .ok lines ∧
+        ∀ line, line ∈ lines ↔ ∃ ρ ∈ senv.table tm, line ∈ stmtsFor senv doc tm ρ [gm] pm (.term om) := by
+    intro tm htm pm om gm hc
+    have hmem := ((mem_rulesOfTm hn doc hnr tm htm _).mpr ⟨pm, om, gm, hc, rfl⟩).1
+    apply rule_refinement henv doc _ tm pm om gm (FragmentOK_ruleOK hn hfrag htm hc) ((htab tm htm).2 _ hmem) (htab tm htm).1
+    intro hac
+    rcases hF4 tm htm _ hmem with h | h
+    · rw [hac] at h; cases h
+    · exact h
+  have hall : ∀ r ∈ normalizeDoc doc, r.asserted = true → ∃ lines, evalRule env (normalizeDoc doc) r = .ok lines := by
+    intro r hr ha
+    obtain ⟨tm, htm, hr⟩ := (mem_normalizeDoc hnr r).mp hr
+    obtain ⟨pm, om, gm, hc, rfl⟩ := (mem_rulesOfTm hn doc hnr tm htm r).mp ⟨hr, ha⟩
+    obtain ⟨lines, hl, _⟩ := hrule tm htm pm om gm hc
+    exact ⟨lines, hl⟩
+  obtain ⟨out, hout, hmem⟩ := evalAll_spec env (normalizeDoc doc) hall
+  refine ⟨out, hout, fun line => ?_⟩
+  rw [hmem, mem_evalDoc senv doc hnr]
+  constructor
+  · rintro ⟨r, hr, ha, lines, hl, hline⟩
+    obtain ⟨tm, htm, hr⟩ := (mem_normalizeDoc hnr r).mp hr
+    obtain ⟨pm, om, gm, hc, rfl⟩ := (mem_rulesOfTm hn doc hnr tm htm r).mp ⟨hr, ha⟩
+    obtain ⟨lines', hl', hiff⟩ := hrule tm htm pm om gm hc
+    rw [hl] at hl'
+    cases hl'
+    exact ⟨tm, htm, pm, om, gm, hc, (hiff line).mp hline⟩
+  · rintro ⟨tm, htm, pm, om, gm, hc, hρ⟩
+    obtain ⟨lines, hl, hiff⟩ := hrule tm htm pm om gm hc
+    have hmemr := (mem_rulesOfTm hn doc hnr tm htm _).mpr ⟨pm, om, gm, hc, rfl⟩
+    exact ⟨_, (mem_normalizeDoc hnr _).mpr ⟨tm, htm, hmemr.1⟩, hmemr.2, lines, hl, (hiff line).mpr hρ⟩
+
+/-- the engine does not raise -/
+theorem C01_no_raise {env : Env} {senv : SEnv} (henv : EnvOK env senv) (hn : NamesOK senv) (doc : Doc)
+    (hfrag : FragmentOK senv doc = true) (htab : TablesOK senv doc = true) (hF4 : NoF4 senv doc = true) :
+    ∃ out, evalAll env (normalizeDoc doc) = .ok out :=
+  let ⟨out, h, _⟩ := C01_refinement_partial henv hn doc hfrag htab hF4
+  ⟨out, h⟩
+
+/-- no statement appears that the generation rules do not prescribe -/
+theorem C01_no_extra {env : Env} {senv : SEnv} (henv : EnvOK env senv) (hn : NamesOK senv) (doc : Doc)
+    (hfrag : FragmentOK senv doc = true) (htab : TablesOK senv doc = true) (hF4 : NoF4 senv doc = true) (line : Str)
+    (h : line ∈ (evalAll env (normalizeDoc doc)).toOption.getD []) : line ∈ evalDoc senv doc := by
+  obtain ⟨out, hout, hiff⟩ := C01_refinement_partial henv hn doc hfrag htab hF4
+  rw [hout] at h
+  exact (hiff line).mp h
+
+/-- no statement that the generation rules prescribe is missing -/
+theorem C01_no_missing {env : Env} {senv : SEnv} (henv : EnvOK env senv) (hn : NamesOK senv) (doc : Doc)
+    (hfrag : FragmentOK senv doc = true) (htab : TablesOK senv doc = true) (hF4 : NoF4 senv doc = true) (line : Str)
+    (h : line ∈ evalDoc senv doc) : line ∈ (evalAll env (normalizeDoc doc)).toOption.getD [] := by
+  obtain ⟨out, hout, hiff⟩ := C01_refinement_partial henv hn doc hfrag htab hF4
+  rw [hout]
+  exact (hiff line).mpr h
+
+/-! #### non-vacuity: a concrete document, table and environment satisfying every hypothesis -/
+
+namespace Ex
+
+def table : Table :=
+  [ [("id".toList, .str "1".toList), ("name".toList, .str "Ann \"A\"".toList)],
+    [("id".toList, .str "2".toList), ("name".toList, .str [])] ]   -- the empty string is an NA token
+
+def tablesE : List ((Str × Str) × Table) := [(("src".toList, "t.csv".toList), table)]
+
+def senv : SEnv := { fmt := .nquads, tables := tablesE }
+
+def env : Env :=
+  { cfg := { escapeChain := Gen.escapeChainTemplate }, fmt := .nquads, tables := tablesE }
+
+def subj : TermMap := { kind := .template, tpl := ⟨"http://ex/".toList, [("id".toList, [])]⟩, termType := .iri }
+def pName : TermMap := { kind := .constant, value := "http://ex/name".toList }
+def oName : TermMap := { kind := .reference, value := "name".toList, termType := .literal, lang := some "en".toList }
+def gTpl : TermMap := { kind := .template, tpl := ⟨"http://ex/g/".toList, [("id".toList, [])]⟩ }
+def pLabel : TermMap := { kind := .constant, value := "http://ex/label".toList }
+def oLabel : TermMap :=
+  { kind := .template, tpl := ⟨[], [("name".toList, " (".toList), ("id".toList, ")".toList)]⟩, termType := .literal,
+    datatype := some "http://ex/dt".toList }
+
+def tm : TriplesMap :=
+  { id := "#TM1".toList, sourceName := "src".toList, lsv := "t.csv".toList, subject := subj,
+    classes := ["http://ex/C".toList], graphs := [],
+    poms := [⟨[pName], [.term oName], [gTpl]⟩, ⟨[pLabel], [.term oLabel], []⟩] }
+
+def doc : Doc := ⟨[tm]⟩
+
+theorem envOK : EnvOK env senv := ⟨⟨rfl, rfl, fun _ _ => rfl, rfl⟩, rfl, rfl, rfl, rfl⟩
+theorem namesOK : NamesOK senv := ⟨rfl, rfl⟩
+theorem fragmentOK : FragmentOK senv doc = true := by decide +kernel
+theorem tablesOK : TablesOK senv doc = true := by decide +kernel
+theorem noF4 : NoF4 senv doc = true := by decide +kernel
+
+/-- the hypotheses of the single-rule theorem hold for the first predicate-object map and its graph map -/
+example : RuleOK senv.defaultGraph tm pName oName gTpl :=
+  ⟨by decide +kernel, by decide +kernel, by decide +kernel, by decide +kernel⟩
+example : Complete (refsOfRule (ruleOf tm pName oName (mapOf gTpl))) (senv.table tm) = true := by decide +kernel
+example : NoRawNulls (senv.table tm) = true := by decide +kernel
+example : isAllConstant (ruleOf tm pName oName (mapOf gTpl)) = false := by decide +kernel
+
+/-- what the engine and the rules produce here (the second row has a null `name`) -/
+example : evalAll env (normalizeDoc doc) = .ok
+    [ "<http://ex/1> <http://www.w3.org/1999/02/22-rdf-syntax-ns#type> <http://ex/C> ".toList,
+      "<http://ex/2> <http://www.w3.org/1999/02/22-rdf-syntax-ns#type> <http://ex/C> ".toList,
+      "<http://ex/1> <http://ex/name> \"Ann \\\"A\\\"\"@en <http://ex/g/1>".toList,
+      "<http://ex/1> <http://ex/label> \"Ann \\\"A\\\" (1)\"^^<http://ex/dt> ".toList ] := by decide +kernel
+
+example : ∃ out, evalAll env (normalizeDoc doc) = .ok out ∧ ∀ line, line ∈ out ↔ line ∈ evalDoc senv doc :=
+  C01_refinement_partial envOK namesOK doc fragmentOK tablesOK noF4
+
+end Ex
+
+/-! #### what the remaining hypotheses exclude (counter-witnesses on the unchanged model) -/
+
+namespace Cw
+def row1 : Table := [[("id".toList, .str "1".toList)]]
+def senv : SEnv := { fmt := .nquads, tables := [(([], []), row1)] }
+def env : Env := { cfg := { escapeChain := Gen.escapeChainTemplate }, fmt := .nquads, tables := [(([], []), row1)] }
+def tm : TriplesMap :=
+  { id := [], sourceName := [], lsv := [], classes := [], graphs := [], poms := [],
+    subject := { kind := .template, tpl := ⟨"http://ex/".toList, [("id".toList, [])]⟩ } }
+def p : TermMap := { kind := .constant, value := "http://ex/p".toList }
+def o : TermMap := { kind := .constant, value := "http://ex/o".toList }
+
+/-- third conjunct of `GraphOK`: `rowTriple` recognises the default graph by the *value* of the graph map alone, so a
+    template-valued (or column-valued) graph map spelled `http://w3id.org/rml/defaultGraph` places the statement in the
+    default graph; the generation rules name the graph `<http://w3id.org/rml/defaultGraph>` -/
+def gLikeDefault : TermMap := { kind := .template, tpl := ⟨"http://w3id.org/rml/defaultGraph".toList, []⟩ }
+
+theorem graph_spelled_default_engine :
+    evalRule env [] (ruleOf tm p o (mapOf gLikeDefault)) = .ok ["<http://ex/1> <http://ex/p> <http://ex/o> ".toList] := by
+  decide +kernel
+
+theorem graph_spelled_default_spec :
+    stmtsFor senv ⟨[]⟩ tm [("id".toList, .str "1".toList)] [gLikeDefault] p (.term o)
+      = ["<http://ex/1> <http://ex/p> <http://ex/o> <http://w3id.org/rml/defaultGraph>".toList] := by
+  decide +kernel
+
+/-- `ObjOK`: a language tag on a non-literal object map (not a valid R2RML mapping, but not rejected) is appended to the IRI -/
+theorem language_on_iri_engine :
+    evalRule env [] (ruleOf tm p { o with lang := some "en".toList } (.constant, defaultGraphIri))
+      = .ok ["<http://ex/1> <http://ex/p> <http://ex/o>@en ".toList] := by
+  decide +kernel
+
+/-- `WFTermMap` for literals (`NoEsc`): constant text of literal term maps is not escaped (this is C05_F5) -/
+theorem constant_literal_not_escaped_engine :
+    evalRule env [] (ruleOf tm p { kind := .constant, value := "a\"b".toList, termType := .literal } (.constant, defaultGraphIri))
+      = .ok ["<http://ex/1> <http://ex/p> \"a\"b\" ".toList] := by
+  decide +kernel
+
+theorem constant_literal_spec :
+    genTerm [] [] { kind := .constant, value := "a\"b".toList, termType := .literal } [] = some "\"a\\\"b\"".toList := by
+  decide +kernel
+
+end Cw
 
 end Props.C01
